@@ -1,1 +1,228 @@
-//! C05 — (harnesses not written yet)
+//! C05 — stored bounding boxes are exact: per shape and in the file header.
+use crate::env::*;
+use crate::model::*;
+use crate::refcodec::*;
+use shapefile::record::{ConcreteReadableShape, ReadableShape, WritableShape};
+use shapefile::*;
+
+/// Independent characterisation of "lo/hi are exactly the extreme values of column `c`
+/// over vertices 0..n": every value inside, and both bounds attained (numeric equality, so
+/// either zero sign is accepted). Not a re-implementation of the fold.
+pub fn is_exact_range(v: &[[f64; 4]], n: usize, c: usize, lo: f64, hi: f64) -> bool {
+    let mut all_in = true;
+    let mut lo_hit = false;
+    let mut hi_hit = false;
+    let mut i = 0;
+    while i < n {
+        let x = v[i][c];
+        if !(lo <= x && x <= hi) {
+            all_in = false;
+        }
+        if x == lo {
+            lo_hit = true;
+        }
+        if x == hi {
+            hi_hit = true;
+        }
+        i += 1;
+    }
+    all_in && lo_hit && hi_hit
+}
+
+pub fn assume_not_nan(m: &Model) {
+    let mut i = 0;
+    while i < m.nv {
+        let mut c = 0;
+        while c < 4 {
+            kani::assume(m.v[i][c] == m.v[i][c]);
+            c += 1;
+        }
+        i += 1;
+    }
+}
+
+/// (a) per shape: box reported by the constructed shape, and the box bytes of its record.
+pub fn shape_box<S: TShape, const N: usize>(parts: &[usize], kinds: &[i32], open: &[usize], closed: &[usize]) {
+    let mut m = Model::with_structure(S::CODE, parts);
+    let mut i = 0;
+    while i < kinds.len() {
+        m.pkind[i] = kinds[i];
+        i += 1;
+    }
+    sym_vertices(&mut m);
+    let mut i = 0;
+    while i < open.len() {
+        pin_open(&mut m, open[i], 1.0, 2.0);
+        i += 1;
+    }
+    let mut i = 0;
+    while i < closed.len() {
+        pin_closed(&mut m, closed[i], [1.0, 2.0, 3.0, 4.0]);
+        i += 1;
+    }
+    assume_not_nan(&m);
+    let s = S::build(&m);
+    let b = s.extract();
+    // extremes over the vertices the shape actually holds (after closing)
+    assert!(is_exact_range(&b.v, b.nv, 0, b.bbox[0], b.bbox[2]), "X range is not exact");
+    assert!(is_exact_range(&b.v, b.nv, 1, b.bbox[1], b.bbox[3]), "Y range is not exact");
+    if has_z(S::CODE) {
+        assert!(is_exact_range(&b.v, b.nv, 2, b.bbox[4], b.bbox[5]), "Z range is not exact");
+    }
+    if may_have_m(S::CODE) {
+        assert!(is_exact_range(&b.v, b.nv, 3, b.bbox[6], b.bbox[7]), "M range is not exact");
+    }
+    // what the record stores
+    let mut f = MemFile::<N>::new();
+    put_i32_le(&mut f.buf, 0, S::CODE);
+    f.pos = 4;
+    f.len = 4;
+    let w = s.write_to(&mut f);
+    assert!(w.is_ok());
+    std::mem::forget(w);
+    match dec_content(&f.buf, 0, f.len) {
+        Some(d) => {
+            assert!(same_bbox(&b, &d, 0, 4));
+            if has_z(S::CODE) {
+                assert!(same_bbox(&b, &d, 4, 6));
+            }
+            if may_have_m(S::CODE) {
+                assert!(d.with_m);
+                assert!(same_bbox(&b, &d, 6, 8));
+            }
+            kani::cover!(true, "record decoded by the independent decoder");
+        }
+        None => assert!(false, "record is not well-formed"),
+    }
+}
+
+macro_rules! sb {
+    ($name:ident, $T:ty, $N:expr, $parts:expr, $kinds:expr, $open:expr, $closed:expr) => {
+        #[kani::proof]
+        #[kani::unwind(22)]
+        fn $name() {
+            shape_box::<$T, $N>(&$parts, &$kinds, &$open, &$closed);
+        }
+    };
+}
+
+// H: tier=quick; sym=3 vertices x 2 non-NaN f64; asserts=box X,Y exact (forall inside, both bounds attained) on accessor and in record bytes
+sb!(c05_q_shape_multipoint_3, Multipoint, 128, [3], [], [], []);
+// H: tier=quick; sym=3 vertices x 3 non-NaN f64; asserts=box X,Y,M exact on accessor and in record bytes
+sb!(c05_q_shape_multipointm_3, MultipointM, 192, [3], [], [], []);
+// H: tier=quick; sym=2 vertices x 4 non-NaN f64; asserts=box X,Y,Z,M exact
+sb!(c05_q_shape_multipointz_2, MultipointZ, 192, [2], [], [], []);
+// H: tier=quick; sym=5 vertices in parts [2,3] x 2 f64; asserts=box X,Y exact over all parts
+sb!(c05_q_shape_polyline_2_3, Polyline, 192, [2, 3], [], [], []);
+// H: tier=quick; sym=4 vertices in parts [2,2] x 3 f64; asserts=box X,Y,M exact over all parts
+sb!(c05_q_shape_polylinem_2_2, PolylineM, 256, [2, 2], [], [], []);
+// H: tier=quick; sym=5 vertices in parts [2,3] x 4 f64; asserts=box X,Y,Z,M exact over all parts
+sb!(c05_q_shape_polylinez_2_3, PolylineZ, 320, [2, 3], [], [], []);
+// H: tier=quick; sym=rings [open 3 -> closed 4, closed 4], interior coordinates symbolic, ends pinned; asserts=box X,Y exact over all rings incl. the second
+sb!(c05_q_shape_polygon_o3_c4, Polygon, 256, [3, 4], [0, 1], [0], [1]);
+// H: tier=quick; sym=ring closed 4, X,Y,M of interior symbolic; asserts=box X,Y,M exact
+sb!(c05_q_shape_polygonm_c4, PolygonM, 256, [4], [0], [], [0]);
+// H: tier=quick; sym=rings [closed 4, open 3], X,Y,Z,M symbolic; asserts=box X,Y,Z,M exact
+sb!(c05_q_shape_polygonz_c4_o3, PolygonZ, 400, [4, 3], [0, 1], [1], [0]);
+// H: tier=quick; sym=patches [strip 3, outer ring closed 4]; asserts=box X,Y,Z,M exact over all patches
+sb!(c05_q_shape_multipatch_strip3_outer4, Multipatch, 400, [3, 4], [0, 2], [], [1]);
+// H: tier=thorough; sym=4 vertices x 4 f64; asserts=box exact
+sb!(c05_t_shape_multipointz_4, MultipointZ, 256, [4], [], [], []);
+// H: tier=thorough; sym=parts [2,2,3] x 4 f64; asserts=box exact over three parts
+sb!(c05_t_shape_polylinez_2_2_3, PolylineZ, 400, [2, 2, 3], [], [], []);
+// H: tier=thorough; sym=parts [3,4] x 3 f64; asserts=box exact
+sb!(c05_t_shape_polylinem_3_4, PolylineM, 320, [3, 4], [], [], []);
+// H: tier=thorough; sym=patches [fan 3, ring open 3, inner ring closed 4]; asserts=box exact over three patches
+sb!(c05_t_shape_multipatch_fan3_ring3o_inner4, Multipatch, 512, [3, 3, 4], [1, 5, 3], [1], [2]);
+// H: tier=thorough; sym=rings [closed 4, closed 4, open 3] x 3 f64; asserts=box exact over three rings
+sb!(c05_t_shape_polygonm_c4_c4_o3, PolygonM, 512, [4, 4, 3], [0, 1, 0], [2], [0, 1]);
+
+/// (b) header: k shapes written through the real writer, header bytes 36..100 decoded
+/// independently and characterised over all vertices of all shapes.
+pub fn header_box<S: TShape, const N: usize>(structs: &[&[usize]], kinds: &[i32]) {
+    let k = structs.len();
+    let mut all = [[0.0f64; 4]; MAXV];
+    let mut n_all = 0usize;
+    let mut shp = MemFile::<N>::new();
+    {
+        let mut w = ShapeWriter::new(&mut shp);
+        let mut i = 0;
+        while i < k {
+            let mut m = Model::with_structure(S::CODE, structs[i]);
+            let mut j = 0;
+            while j < kinds.len() {
+                m.pkind[j] = kinds[j];
+                j += 1;
+            }
+            sym_vertices(&mut m);
+            assume_not_nan(&m);
+            // the carve-out of the statement: every measure is real data
+            let mut j = 0;
+            while j < m.nv {
+                kani::assume(m.v[j][3] > shapefile::NO_DATA);
+                j += 1;
+            }
+            let s = S::build(&m);
+            let b = s.extract();
+            let mut j = 0;
+            while j < b.nv {
+                all[n_all] = b.v[j];
+                n_all += 1;
+                j += 1;
+            }
+            let r = w.write_shape(&s);
+            assert!(r.is_ok());
+            std::mem::forget(r);
+            i += 1;
+        }
+    }
+    match dec_header(&shp.buf, shp.len) {
+        Some(h) => {
+            // xmin ymin xmax ymax zmin zmax mmin mmax
+            assert!(is_exact_range(&all, n_all, 0, h.bbox[0], h.bbox[2]), "header X range is not exact");
+            assert!(is_exact_range(&all, n_all, 1, h.bbox[1], h.bbox[3]), "header Y range is not exact");
+            if has_z(S::CODE) {
+                assert!(is_exact_range(&all, n_all, 2, h.bbox[4], h.bbox[5]), "header Z range is not exact");
+            } else {
+                assert!(h.bbox[4] == 0.0 && h.bbox[5] == 0.0, "header Z range of a type without Z is not 0");
+            }
+            if S::CODE != T_MULTIPATCH {
+                if may_have_m(S::CODE) {
+                    assert!(is_exact_range(&all, n_all, 3, h.bbox[6], h.bbox[7]), "header M range is not exact");
+                } else {
+                    assert!(h.bbox[6] == 0.0 && h.bbox[7] == 0.0, "header M range of a type without M is not 0");
+                }
+            }
+            kani::cover!(true, "header decoded");
+        }
+        None => assert!(false, "header is not well-formed"),
+    }
+}
+
+macro_rules! hb {
+    ($name:ident, $T:ty, $N:expr, $structs:expr, $kinds:expr) => {
+        #[kani::proof]
+        #[kani::unwind(22)]
+        fn $name() {
+            header_box::<$T, $N>(&$structs, &$kinds);
+        }
+    };
+}
+// H: tier=quick; sym=2 Points x 2 non-NaN f64 (incl. +-inf, f64::MAX/MIN, +-0); asserts=header X,Y exact over both shapes; Z,M ranges 0
+hb!(c05_q_header_point_2, Point, 192, [&[], &[]], []);
+// H: tier=quick; sym=3 PointZ x 4 non-NaN f64, M > NO_DATA; asserts=header X,Y,Z,M exact over the three shapes (extreme may sit in any shape)
+hb!(c05_q_header_pointz_3, PointZ, 256, [&[], &[], &[]], []);
+// H: tier=quick; sym=2 PointM x 3 f64; asserts=header X,Y,M exact, Z range 0
+hb!(c05_q_header_pointm_2, PointM, 192, [&[], &[]], []);
+// H: tier=quick; sym=PolylineM [2] then [3] x 3 f64; asserts=header X,Y,M exact over both shapes and all parts, Z range 0
+hb!(c05_q_header_polylinem_2_then_3, PolylineM, 400, [&[2], &[3]], []);
+// H: tier=quick; sym=2 Multipatch (triangle strip 3) x 4 f64; asserts=header X,Y,Z exact (no claim for M)
+hb!(c05_q_header_multipatch_2, Multipatch, 512, [&[3], &[3]], [0]);
+// H: tier=thorough; sym=MultipointZ 2 then 1 then 2 points; asserts=header X,Y,Z,M exact over three shapes
+hb!(c05_t_header_multipointz_2_1_2, MultipointZ, 640, [&[2], &[1], &[2]], []);
+// H: tier=thorough; sym=Polyline [2,2] then [2]; asserts=header X,Y exact; Z,M 0
+hb!(c05_t_header_polyline_22_then_2, Polyline, 400, [&[2, 2], &[2]], []);
+// H: tier=thorough; sym=3 Multipoint of 1,2,1 points; asserts=header X,Y exact; Z,M 0
+hb!(c05_t_header_multipoint_1_2_1, Multipoint, 400, [&[1], &[2], &[1]], []);
+// H: tier=thorough; sym=PolylineZ [2] then [2]; asserts=header X,Y,Z,M exact
+hb!(c05_t_header_polylinez_2_then_2, PolylineZ, 512, [&[2], &[2]], []);
